@@ -10,9 +10,10 @@ HARNESSES = [
     ("crypto/storage/fs", ["crypto/storage/fs/zz_verif_c03_test.go"], "c03fs"),
     ("crypto/storage/vault", ["crypto/storage/vault/zz_verif_c03_test.go"], "c03vault"),
     ("crypto", ["crypto/zz_verif_c03_test.go"], "c03ks"),
+    ("crypto/api/v1", ["crypto/api/v1/zz_verif_c03_test.go"], "c03api"),
 ]
 PKG, HARNESS = HARNESSES[2][0], HARNESSES[2][1]
-PARTS = {"c03fs": "fs", "c03vault": "vault", "c03ks": "ks"}
+PARTS = {"c03fs": "fs", "c03vault": "vault", "c03ks": "ks", "c03api": "api"}
 
 REQUIRED = [
     "kid_confined", "kid_confined_vault", "valid_kid_bytes", "pattern_alone_does_not_confine_vault",
@@ -102,6 +103,24 @@ def run(ctx):
             ctx.oblige(f"harness-runs:{part}", False, log[-1500:])
             continue
         ctx.oblige(f"harness-runs:{part}", True)
+        if part == "api":   # exploration only: no ops / model
+            cp = os.path.join(out, "api_canary.json")
+            can = json.load(open(cp)) if os.path.exists(cp) else {}
+            hits = can.get("hits") or []
+            ctx.cov["api_tour_canary_scan_EXPLORATION"] = {k: can.get(k) for k in
+                                                          ("keys", "canaries", "requests", "statuses", "bytes_scanned", "sinks", "tokens_issued",
+                                                           "scanner_positive_control", "sign_jws_200_with_private_jwk_object")}
+            ctx.cov["api_tour_canary_scan_EXPLORATION"]["hits"] = len(hits)
+            ctx.oblige("exploration:api-tour-ran", bool(can.get("scanner_positive_control")) and can.get("requests", 0) > 0, str(can.get("requests")))
+            for h in hits[:3]:
+                ctx.violation(f"C03:api-canary:{h['Sink']}:{h['Kind'].split(':')[0]}",
+                              f"private key material ({h['Kind']}) of key {h['Key']} found in '{h['Sink']}' during the crypto API tour: {h['Context'][:120]}",
+                              "api-canary-hit.txt", json.dumps(h))
+            if can.get("sign_jws_200_with_private_jwk_object"):
+                ctx.violation("C03:api:sign_jws-accepted-private-jwk-header", "POST sign_jws answered 200 for a headers.jwk object carrying d",
+                              "api-private-jwk.txt", json.dumps(can.get("statuses")))
+            ctx.oblige("exploration:api-tour-no-hit", not hits and not can.get("sign_jws_200_with_private_jwk_object"), f"{len(hits)} hits")
+            continue
         ops_p, impl_p, model_p = (os.path.join(out, f"{part}_{x}") for x in ("ops.jsonl", "impl.out", "model.out"))
         ok, err = ctx.model("C03", ops_p, model_p)
         ctx.oblige(f"model-driver-runs:{part}", ok, err[-500:])
@@ -239,6 +258,10 @@ def run(ctx):
                 found_violation |= ctx.violation("C03:ks:%s-succeeded-for-a-kid-without-key-reference" % k,
                                                  f"{k} for kid {op.get('kid')!r} succeeded although no New/Link/Migrate bound that kid in this history: {line[:120]}",
                                                  "ks-unknown-kid.jsonl", "\n".join(ops[seq_start:i + 1]))
+            if "DECOY" in line:
+                found_violation |= ctx.violation("C03:ks:%s-touched-key-file-outside-key-dir" % k,
+                                                 f"{k} for kid {op.get('kid')!r} reached the decoy key file outside the key directory: {line[:160]}",
+                                                 "ks-outside-key-dir.jsonl", "\n".join(ops[seq_start:i + 1]))
             if k == "sign":
                 m = re.search(r" ok verifies=\[(.*?)\](.*)$", line)
                 if m:
@@ -254,7 +277,7 @@ def run(ctx):
                         found_violation |= ctx.violation("C03:ks:signature-not-by-the-key-published-for-kid",
                                                          f"kid {op.get('kid')!r}: New returned K{published[op['kid']]}, signature verifies with {vs[0]}",
                                                          "ks-binding.jsonl", "\n".join(ops[seq_start:i + 1]))
-                    if m.group(2).strip():
+                    if m.group(2).strip() and "DECOY" not in m.group(2):
                         found_violation |= ctx.violation("C03:ks:kid-header-differs-from-requested-kid", line[:200], "ks-kid-header.jsonl",
                                                          "\n".join(ops[seq_start:i + 1]))
             elif k in ("signjws", "signjwt"):
